@@ -300,6 +300,18 @@ class GInterp(Interp):
                     st = self.merge(outs[0], outs[1], cond)
                     b = J
                     continue
+                if not isinstance(d, int) and lin_parts(d) is not None:
+                    # a `match` on the character / byte code itself (`Ok(0) => .., Ok(code) => ..`): decided when the region of the code
+                    # lies on one side of every literal arm
+                    lo_, hi_ = bitsem.lin_range(d)
+                    hit_ = [tb for v_, tb in t["arms"] if lo_ == hi_ == v_]
+                    if hit_:
+                        b = hit_[0]
+                        continue
+                    if all(v_ < lo_ or v_ > hi_ for v_, tb in t["arms"]):
+                        b = t["otherwise"]
+                        continue
+                    raise Undecided("a match arm splits one region of the code")
                 if not isinstance(d, int):
                     raise Undecided("branch on an unmodelled value")
                 tgt = None
